@@ -22,7 +22,7 @@ SPEC = {
     "build_comp": "reject",
     "props": ["props/C21.v"],
     "corr": ["corr/Reject_corr.v"],
-    "comps": [{"comp": "reject", "n_quick": 2500, "n_thorough": 80000}],
+    "comps": [{"comp": "reject", "n_quick": 2000, "n_thorough": 80000}],
     "trusted": ["model/Reject.v create_reject and helpers are hand-written mirrors of CreateRejectPacket, ipv4/ipv6CreateReject{ICMP,TCP}Packet, tcpipChecksum, "
                 "ipv4/ipv6PseudoheaderChecksum (tied by correspondence); the extension header walk is model/IpParse.v find_upper (C20)",
                 "gen/Consts_Reject.v: iputil.MaxRejectPacketSize; gen/Consts_IpParse.v: walker limit and walked header set"],
